@@ -1,10 +1,10 @@
-\* thorough: every class of <= 4 functions over the 48 shapes
+\* thorough: every class of <= 4 functions over 16 shapes (4/5 parameters, 8/9 calls, 2/3 lines): 69 904 classes
 SPECIFICATION Spec
 CONSTANTS
   MaxClasses = 1
   MaxFuncs = 4
   Types = {"Class"}
-  Shapes <- ShapesQuick
+  Shapes <- ShapesFour
   LongestInit = "constructors"
   MergeKeeps = "first"
 INVARIANTS X02_SuggestionsExact X02_OnePerClass X02_CounterRegister Emit
